@@ -1943,10 +1943,17 @@ def run(ctx: Ctx, driver: Driver):
     # requests queued on the request slot of a real IpPairing when its session is lost (last: the older streams' draws stay)
     from harness.c08_queued import run_queued
     run_queued(ctx)
+    # ... and the same window against the Lean automaton ReqConn.Queue (theorems C08_queue_*) on the real request()
+    from harness.c08_slot import run_slot
+    run_slot(ctx, driver)
 
 
 def replay(ctx: Ctx, driver: Driver, case):
     n = len(ctx.violations)
+    if case.get("stream") == "slot":
+        from harness.c08_slot import replay_slot
+        r = replay_slot(ctx, driver, case)
+        return [r] if r else []
     if case.get("stream") == "queued-requests":
         from harness.c08_queued import replay_queued
         return replay_queued(ctx, case)
